@@ -162,8 +162,19 @@ where
         // Shared shutdown signal between socket.incoming() and shutdown signal receiver.
         let shutdown = Arc::new(AtomicBool::new(false));
         let shutdown_clone = shutdown.clone();
+        #[cfg(humphrey_verif)]
+        let verif_dropped = crate::thread::verif::AppDropGuard::new();
         let main_app_thread = thread::spawn(move || {
             for stream in socket.incoming() {
+                #[cfg(humphrey_verif)]
+                crate::thread::verif::app_event(match &stream {
+                    Ok(s) => crate::thread::verif::AppEvent::AcceptReturned(
+                        s.peer_addr().ok().map(|a| a.port()),
+                    ),
+                    Err(_) => crate::thread::verif::AppEvent::AcceptFailed,
+                });
+                #[cfg(humphrey_verif)]
+                let shutdown_clone = crate::thread::verif::TracedFlag(&shutdown_clone);
                 if shutdown_clone.load(Ordering::SeqCst) {
                     break;
                 }
@@ -174,6 +185,10 @@ where
 
                         // Check that the client is allowed to connect
                         if (self.connection_condition)(&mut stream, cloned_state) {
+                            #[cfg(humphrey_verif)]
+                            crate::thread::verif::app_event(
+                                crate::thread::verif::AppEvent::Condition(true),
+                            );
                             let cloned_state = self.state.clone();
                             let cloned_monitor = self.monitor.clone();
                             let cloned_subapps = subapps.clone();
@@ -204,7 +219,15 @@ where
                                     cloned_timeout,
                                 )
                             });
+                            #[cfg(humphrey_verif)]
+                            crate::thread::verif::app_event(
+                                crate::thread::verif::AppEvent::Executed,
+                            );
                         } else {
+                            #[cfg(humphrey_verif)]
+                            crate::thread::verif::app_event(
+                                crate::thread::verif::AppEvent::Condition(false),
+                            );
                             self.monitor.send(
                                 Event::new(EventType::ConnectionDenied)
                                     .with_peer_result(stream.peer_addr()),
@@ -216,17 +239,35 @@ where
                         .send(Event::new(EventType::ConnectionError).with_info(e.to_string())),
                 }
             }
+            #[cfg(humphrey_verif)]
+            crate::thread::verif::app_event(crate::thread::verif::AppEvent::LoopExit);
             self.thread_pool.stop();
+            #[cfg(humphrey_verif)]
+            crate::thread::verif::app_event(crate::thread::verif::AppEvent::PoolStopped);
+            #[cfg(humphrey_verif)]
+            verif_dropped.touch();
         });
 
         if let Some(s) = self.shutdown {
             // We wait for the shutdown signal, then wake up the main app thread with a new connection
             let _ = s.recv();
+            #[cfg(humphrey_verif)]
+            crate::thread::verif::app_event(crate::thread::verif::AppEvent::SignalReceived);
+            #[cfg(humphrey_verif)]
+            crate::thread::verif::app_event(crate::thread::verif::AppEvent::FlagStoreBegin);
             shutdown.store(true, Ordering::SeqCst);
+            #[cfg(humphrey_verif)]
+            crate::thread::verif::app_event(crate::thread::verif::AppEvent::FlagStored);
+            #[cfg(humphrey_verif)]
+            crate::thread::verif::app_event(crate::thread::verif::AppEvent::SelfConnectBegin);
             let _ = TcpStream::connect(unspecified_socket_to_loopback(addr));
+            #[cfg(humphrey_verif)]
+            crate::thread::verif::app_event(crate::thread::verif::AppEvent::SelfConnectDone);
         };
 
         let _ = main_app_thread.join();
+        #[cfg(humphrey_verif)]
+        crate::thread::verif::app_event(crate::thread::verif::AppEvent::JoinDone);
 
         Ok(())
     }
